@@ -1,6 +1,6 @@
 """C07 — a chunk-relative view is the chromosome view restricted to the chunk."""
 import harness.common  # noqa: F401
-from inscripta.biocantor.exc import BioCantorException
+from inscripta.biocantor.exc import BioCantorException, InvalidPositionException
 from inscripta.biocantor.gene.cds import CDSInterval
 from inscripta.biocantor.gene.cds_frame import CDSFrame
 from inscripta.biocantor.gene.feature import FeatureInterval
@@ -267,6 +267,75 @@ def utr_pre(shape):
         return True
 
     return pre
+
+
+def chunk_accessors(strand, chunk_strand=PLUS):
+    """every chunk-relative accessor of a coding transcript whose chunk may cut it anywhere agrees with the chromosome view restricted to the window: exon and
+    CDS blocks, starts / ends / sizes, span, gaps = introns, position conversions along the visible part, and the alternative constructor
+    from_chunk_relative_location rebuilds the visible part. Realised leg."""
+
+    def fn(**kw):
+        names = sorted(kw)
+        vals = concretize(*[kw[n] for n in names])
+        kw = dict(zip(names, vals if isinstance(vals, list) else [vals]))
+        with untraced():
+            return bool(body(**kw))
+
+    def body(s0, l0, g1, l1, g2, l2, ca, cb, w, Lc):
+        ex = [(s0, s0 + l0), (s0 + l0 + g1, s0 + l0 + g1 + l1), (s0 + l0 + g1 + l1 + g2, s0 + l0 + g1 + l1 + g2 + l2)]
+        cds = [(ex[0][0] + ca, ex[0][1]), ex[1], (ex[2][0], ex[2][1] - cb)]
+        frames = [CDSFrame(f) for f in consistent_frames([c[1] - c[0] for c in cds], strand, 0)]
+        genome = GENOME40 * 2
+        t = TranscriptInterval([e[0] for e in ex], [e[1] for e in ex], strand, [c[0] for c in cds], [c[1] for c in cds], frames, guid=47,
+                               parent_or_seq_chunk_parent=chunk_parent(w, Lc, seq=genome[w:w + Lc], strand=chunk_strand))
+        if chunk_strand is PLUS:
+            clip = lambda bl: [(max(a, w) - w, min(b, w + Lc) - w) for a, b in bl if max(a, w) < min(b, w + Lc)]  # noqa: E731
+        else:
+            clip = lambda bl: sorted((w + Lc - min(b, w + Lc), w + Lc - max(a, w)) for a, b in bl if max(a, w) < min(b, w + Lc))  # noqa: E731
+        rel_strand = strand if chunk_strand is PLUS else strand.reverse()
+        cex, ccds = clip(ex), clip(cds)
+
+        def bl(loc):
+            return [] if (loc is EmptyLocation() or loc.is_empty) else [(b.start, b.end) for b in loc.blocks]
+
+        ok = bl(t.chunk_relative_location) == cex and bl(t.cds_chunk_relative_location) == ccds and [(b.start, b.end) for b in t.cds_location.blocks] == cds
+        ok = ok and t.cds_size == sum(b - a for a, b in cds) and t.chunk_relative_cds_size == sum(b - a for a, b in ccds)
+        if ccds:
+            ok = ok and t.chunk_relative_cds_start == ccds[0][0] and t.chunk_relative_cds_end == ccds[-1][1]
+            ok = ok and [(b.start, b.end) for b in t.chunk_relative_cds_blocks] == ccds
+        if not cex:
+            return ok
+        ok = ok and t.chunk_relative_start == cex[0][0] and t.chunk_relative_end == cex[-1][1] and t.chunk_relative_size == sum(b - a for a, b in cex)
+        ok = ok and (t.chunk_relative_span.start, t.chunk_relative_span.end) == (cex[0][0], cex[-1][1]) and t.chunk_relative_strand is rel_strand
+        gaps = [(a[1], b[0]) for a, b in zip(cex, cex[1:])]
+        ok = ok and bl(t.chunk_relative_gaps_location) == gaps and bl(t.chunk_relative_intron_location) == gaps
+        ok = ok and [(b.start, b.end) for b in t.relative_blocks] == cex and t.num_chunk_relative_blocks == len(cex)
+        # conversions between positions along the VISIBLE part of the transcript and chunk coordinates
+        order = cex if rel_strand is PLUS else list(reversed(cex))
+        walk = [q for a, b in order for q in (range(a, b) if rel_strand is PLUS else range(b - 1, a - 1, -1))]
+        for i, q in enumerate(walk):
+            ok = ok and t.transcript_pos_to_chunk_relative(i) == q and t.chunk_relative_pos_to_transcript(q) == i
+        for bad in (-1, len(walk)):
+            try:
+                t.transcript_pos_to_chunk_relative(bad)
+                ok = False
+            except InvalidPositionException:
+                pass
+        if len(walk) >= 2:
+            got = t.transcript_interval_to_chunk_relative(1, len(walk), PLUS)
+            ok = ok and sorted(q for a, b in bl(got) for q in range(a, b)) == sorted(walk[1:])
+            back = t.chunk_relative_interval_to_transcript(cex[0][0], cex[-1][1], rel_strand)
+            ok = ok and sorted(q for a, b in bl(back) for q in range(a, b)) == list(range(len(walk)))
+        # the alternative constructor rebuilds the visible part from its chunk-relative locations
+        if chunk_strand is PLUS and not any(a[1] == b[0] for a, b in zip(cex, cex[1:])):
+            t2 = TranscriptInterval.from_chunk_relative_location(t.chunk_relative_location, cds=t.cds if ccds else None, guid=48)
+            ok = ok and [(b.start, b.end) for b in t2.chromosome_location.blocks] == [(a + w, b + w) for a, b in cex] and bl(t2.chunk_relative_location) == cex
+            ok = ok and str(t2.get_spliced_sequence()) == str(t.get_spliced_sequence())
+            if ccds:
+                ok = ok and [(b.start, b.end) for b in t2.cds.chromosome_location.blocks] == [(a + w, b + w) for a, b in ccds]
+        return ok
+
+    return fn
 
 
 def cds_sliced_out(strand):
@@ -643,6 +712,18 @@ def obligations(tier):
                                 "touch (0-bp gap, a modelled frameshift) stay separate blocks whatever the window cuts" % kind,
                            bounds="%d blocks with gaps >= 0 (adjacent allowed), symbolic coordinates and window start, chunk length %d" % (k, L),
                            examples=[ex, dict(ex, w=105), dict(ex, g1=2)]))
+        for cstrand in (PLUS, MINUS):
+            out.append(Obl("chunk_accessors_%s_chunk%s" % (sn, sname(cstrand)), chunk_accessors(strand, cstrand),
+                           dict(s0=int, l0=int, g1=int, l1=int, g2=int, l2=int, ca=int, cb=int, w=int, Lc=int),
+                           (lambda cstrand: (lambda s0, l0, g1, l1, g2, l2, ca, cb, w, Lc: 10 <= s0 and s0 <= (10 if quick else 11) and 4 <= l0 and l0 <= 5 and g1 == 2 and 3 <= l1 and l1 <= 4 and
+                                             2 <= g2 and g2 <= 3 and l2 == 5 and 0 <= ca and ca <= 2 and 1 <= cb and cb <= 2 and 4 <= w and w <= 32 and
+                                             (Lc == 8 or Lc == 16 or Lc == 30) and (cstrand is PLUS or not quick or Lc == 16)))(cstrand), budget=900, cost=120,
+                           desc="coding transcript (3 exons) on a %s-strand chunk that may cut it anywhere: chunk-relative exon / CDS blocks, starts, ends, sizes, span, "
+                                "gaps = introns, strand, position and interval conversions along the visible part, and from_chunk_relative_location all equal the "
+                                "chromosome view restricted to the window" % sname(cstrand),
+                           bounds="exons 4..5 / 3..4 / 5 nt, introns 2 / 2..3, CDS start 0..2 into exon 1 and end 1..2 before the end of exon 3, first start 10..11, chunk "
+                                  "lengths 8 / 16 / 30 starting at 4..32 (realised)",
+                           examples=[dict(s0=10, l0=4, g1=2, l1=3, g2=2, l2=5, ca=1, cb=1, w=12, Lc=16), dict(s0=10, l0=5, g1=2, l1=4, g2=3, l2=5, ca=0, cb=2, w=4, Lc=16)]))
         for shape in ("e0", "both"):
             out.append(Obl("utr_on_minus_chunk_%s_%s" % (shape, sn), utr_on_chunk(shape, strand, MINUS), dict(s0=int, l0=int, g1=int, l1=int, ca=int, cb=int, w=int),
                            (lambda shape, pre0: (lambda **kw: pre0(**kw) and kw["s0"] == 100 and (kw["l0"] == 5 or not quick)))(shape, utr_pre(shape)), budget=900, cost=90,
